@@ -52,14 +52,16 @@ Theorem C05_inv_check_means_partition : forall rd P, inv_check rd P = Ok tt ->
 Proof. exact inv_check_partition. Qed.
 Print Assumptions C05_inv_check_means_partition.
 
-(* ---- the engine model: every state a history of transactions reaches satisfies the strict tree invariant (sorted keys inside
-   their separators' intervals, separator = first key of its page, no page named twice in a bucket) and the allocation invariant
-   (free and pending ids disjoint from every reachable page run and from the free-list run). `txs_ok` carries the side conditions
-   (the model's fuels; the allocation half of each NEW state is the evaluated hypothesis of props/C01.v, so for that half this is
-   the statement that the hypothesis propagates, not a proof of it). ---- *)
-From Jamm Require Engine EngineTxInvFacts EngineRefines EngineCorollaries.
-Theorem C05_partial_engine_states_well_formed : forall P txs st', (0 < P)%N -> EngineRefines.txs_ok (Engine.init_db P) txs ->
+(* ---- the engine model: every state a history of transactions reaches from the empty database satisfies the strict tree
+   invariant (sorted keys inside their separators' intervals, separator = first key of its page, no page named twice in a
+   bucket), the allocation invariant (free and pending ids inside [2, num_pages), disjoint from every reachable page run --
+   overflow pages included -- and from the free-list run), and no two reachable nodes or the free-list run share a page.
+   `txs_ok'` carries only the model's fuels. This is C05's "each page exactly one of reachable / free list / free" for the
+   model, minus completeness (no leak), which is checked per file by inv_check. ---- *)
+From Jamm Require Engine EngineTxInvFacts EngineRefines EngineOwnDefs EngineAllocInv EngineCorollaries.
+Theorem C05_engine_states_well_formed : forall P txs st', (0 < P)%N -> EngineAllocInv.txs_ok' (Engine.init_db P) txs ->
   EngineRefines.run_txs (Engine.init_db P) txs = Engine.Ok st' ->
-  EngineTxInvFacts.db_strict st' /\ EngineRefines.db_alloc_ok st'.
+  EngineTxInvFacts.db_strict st' /\ EngineRefines.alloc_ok st' (EngineOwnDefs.Rof st') /\
+  NoDup (EngineRefines.live_of st' (EngineOwnDefs.Rof st')) /\ EngineOwnDefs.pend_le st'.
 Proof. exact EngineCorollaries.reachable_states_ok. Qed.
-Print Assumptions C05_partial_engine_states_well_formed.
+Print Assumptions C05_engine_states_well_formed.
